@@ -108,7 +108,7 @@ def tokJ : Tok → Json
   | .lit s => obj [("s", sJ s)]
   | .int i => obj [("s", sJ (showInt i))]
   | .repr q => obj [("r", ratToJson q)]
-  | .g q => obj [("g", ratToJson q)]
+  | .num q => if q.den = 1 then obj [("s", sJ (showInt q.num))] else obj [("r", ratToJson q)]
   | .uni s => obj [("u", sJ s)]
 
 def resJ {α} (f : α → Json) : Except Err α → Json
